@@ -135,8 +135,10 @@ impl RestorerJob {
     pub fn increase_crash_counters(&mut self, worker_id: WorkerId) {
         for task in self.tasks.values_mut() {
             match &task.state {
+                // As in the scheduler core, only the loss of the root (first) worker of
+                // a (multi-node) task stops the task and counts as its crash
                 JobTaskState::Running { started_data }
-                    if started_data.worker_ids.contains(&worker_id) =>
+                    if started_data.worker_ids.first() == Some(&worker_id) =>
                 {
                     task.crash_counter += 1;
                 }
